@@ -344,4 +344,6 @@ RULES = [
     ("C12.R4", "block list: one line per phase set with 1-based extent and size", r4),
     ("C12.R5", "non-overlapping split: the sorted worklist is re-sorted after insertions", r5),
 ]
-FLOORS = {"C12.R1": 4, "C12.R2": 14, "C12.R3": 13, "C12.R4": 8, "C12.R5": 3}
+# instance floors: about 60% of the instances confirmed by hand on the reference tree -- a rule that suddenly matches far fewer
+# sites fails the run (exit 2); a clean-up that merges two sites into one does not
+FLOORS = {"C12.R1": 2, "C12.R2": 8, "C12.R3": 7, "C12.R4": 4, "C12.R5": 1}
